@@ -23,3 +23,26 @@ t = open(p).read()
 t = re.sub(r'SEEDED-TABLE-BEGIN.*?SEEDED-TABLE-END', 'SEEDED-TABLE-BEGIN\n' + '\n'.join(rows) + '\nSEEDED-TABLE-END', t, flags=re.S)
 open(p, 'w').write(t)
 print(len(rows) - 2, 'rows')
+
+# ---- refactoring table (rows only; the prose above the table is hand-written)
+rp = os.path.join(V, 'selftest', 'refactors_last_run.json')
+if os.path.exists(rp):
+    rres = {r['refactor']: r for r in json.load(open(rp))}
+    rrows = ['| refactoring | what it changes | all 17 quick checks |', '|---|---|---|']
+    def rkey(n):
+        a, b = n[1:].split('-')
+        return (int(a), int(b))
+    for name in sorted(os.listdir(os.path.join(V, 'refactors')), key=rkey):
+        mp = os.path.join(V, 'refactors', name, 'meta.json')
+        if not os.path.exists(mp):
+            continue
+        m = json.load(open(mp))
+        s = (m.get('summary') or '').replace('\n', ' ').replace('|', '\\|')
+        s = s if len(s) <= 260 else s[:259] + '…'
+        rrows.append('| %s | %s | %s |' % (name, s, rres.get(name, {}).get('status', '?')))
+    t = open(p).read()
+    m = re.search(r'(REFACTOR-TABLE-BEGIN\n)(.*?)(\| refactoring \|.*?)(REFACTOR-TABLE-END)', t, flags=re.S)
+    if m:
+        t = t[:m.start()] + m.group(1) + m.group(2) + '\n'.join(rrows) + '\n' + m.group(4) + t[m.end():]
+        open(p, 'w').write(t)
+        print(len(rrows) - 2, 'refactor rows')
